@@ -194,3 +194,50 @@ move_case!(h15d_memmove_shared_up8_off5, 5, 13, 11, false);
 // @domain ∀ b∈u8^24, ∀ count≤13: memmove(AtomicBytes(buf), 11, 3, count)
 // @claim as h15d_memmove_shared_up8
 move_case!(h15d_memmove_shared_down8_off3, 11, 3, 13, false);
+
+// ---- thorough tier: more alignment classes (same claims as the quick-tier harness of the same family) ----
+// @harness h15d_memmove_shared_up8_off2 tier=thorough props=C15,C02
+// @bounds from=2, to=10, ∀ count ≤ 14
+// @domain ∀ b∈u8^24, ∀ count≤14: memmove(AtomicBytes(buf), 2, 10, count)
+// @claim as h15d_memmove_shared_up8
+move_case!(h15d_memmove_shared_up8_off2, 2, 10, 14, false);
+// @harness h15d_memmove_shared_up8_off7 tier=thorough props=C15,C02
+// @bounds from=7, to=15, ∀ count ≤ 9
+// @domain ∀ b∈u8^24, ∀ count≤9: memmove(AtomicBytes(buf), 7, 15, count)
+// @claim as h15d_memmove_shared_up8
+move_case!(h15d_memmove_shared_up8_off7, 7, 15, 9, false);
+// @harness h15d_memmove_shared_up16 tier=thorough props=C15,C02
+// @bounds from=0, to=16, ∀ count ≤ 8 (no overlap, same misalignment)
+// @domain ∀ b∈u8^24, ∀ count≤8: memmove(AtomicBytes(buf), 0, 16, count)
+// @claim as h15d_memmove_shared_up8
+move_case!(h15d_memmove_shared_up16, 0, 16, 8, false);
+// @harness h15d_memmove_shared_down1 tier=thorough props=C15,C02
+// @bounds from=4, to=3 (different misalignment, destination one below the source), ∀ count ≤ 20
+// @domain ∀ b∈u8^24, ∀ count≤20: memmove(AtomicBytes(buf), 4, 3, count)
+// @claim as h15d_memmove_shared_up8
+move_case!(h15d_memmove_shared_down1, 4, 3, 20, false);
+// @harness h15d_memmove_naive_shared_up8_off3 tier=thorough props=C15,C02
+// @bounds memmove_naive, from=3, to=11, ∀ count ≤ 13
+// @domain ∀ b∈u8^24, ∀ count≤13: memmove_naive(AtomicBytes(buf), 3, 11, count)
+// @claim as h15d_memmove_naive_shared_up8
+move_case!(h15d_memmove_naive_shared_up8_off3, 3, 11, 13, true);
+// @harness h15d_memmove_naive_shared_down8 tier=thorough props=C15,C02
+// @bounds memmove_naive, from=8, to=0, ∀ count ≤ 16
+// @domain ∀ b∈u8^24, ∀ count≤16: memmove_naive(AtomicBytes(buf), 8, 0, count)
+// @claim as h15d_memmove_naive_shared_up8
+move_case!(h15d_memmove_naive_shared_down8, 8, 0, 16, true);
+// @harness h15d_memcpy_ss_aligned tier=thorough props=C15,C02
+// @bounds shared→shared, offsets 0/0 (8-aligned), ∀ count ≤ 24
+// @domain ∀ s,d∈u8^24, ∀ count≤24
+// @claim as h15d_memcpy_ss_same_misalign
+copy_case!(h15d_memcpy_ss_aligned, 0, 0, 24, shared_to_shared);
+// @harness h15d_memcpy_bs_diff_misalign tier=thorough props=C15,C02
+// @bounds plain→shared, offsets 4/1, ∀ count ≤ 20
+// @domain ∀ s,d∈u8^24, ∀ count≤20
+// @claim as h15d_memcpy_ss_same_misalign
+copy_case!(h15d_memcpy_bs_diff_misalign, 4, 1, 20, bytes_to_shared);
+// @harness h15d_memcpy_sb_off7 tier=thorough props=C15,C02
+// @bounds shared→plain, offsets 7/7, ∀ count ≤ 17
+// @domain ∀ s,d∈u8^24, ∀ count≤17
+// @claim as h15d_memcpy_ss_same_misalign
+copy_case!(h15d_memcpy_sb_off7, 7, 7, 17, shared_to_bytes);
